@@ -284,7 +284,17 @@ ERROPS = {'{0}+{1}': ['E', 'o'], '{1}*{0}': ['E', 'o'], '{0}&{1}': ['E', 'o'], '
           '{0}/{1}': ['o', 'z'], 'IFERROR({0}/{1},{2})': ['o', 'z', 'a'], 'ISERROR({0}+{1})': ['E', 'o'], 'IFNA({0}&{1},{2})': ['E', 'o', 'a'],
           '{0}+{1}+{2}': ['E', 'E', 'o'], 'IF(ISERROR({0}),{1},{0})': ['E', 'a']}
 
+PREC = {'{0}+{1}*{2}': ['v', 'v', 'v'], '{0}*{1}+{2}': ['v', 'v', 'v'], '{0}-{1}-{2}': ['v', 'v', 'v'], '{0}/{1}/{2}': ['v', 'z', 'z'],
+        '{0}-{1}+{2}': ['v', 'v', 'v'], '{0}*{1}/{2}': ['v', 'v', 'z'], '{0}/{1}*{2}': ['v', 'z', 'v'], '-{0}+{1}': ['v', 'v'],
+        '-{0}*{1}': ['v', 'v'], '{0}+{1}<{2}': ['v', 'v', 'v'], '{0}={1}+{2}': ['v', 'v', 'v'], '({0}+{1})*{2}': ['v', 'v', 'v'],
+        '{0}-({1}-{2})': ['v', 'v', 'v'], '{0}/({1}*{2})': ['v', 'z', 'z'],
+        '{0}<{1}={2}': ['v', 'v', 'L'], '{0}*{1}-{2}/{3}': ['v', 'v', 'v', 'z'], '-({0}-{1})': ['v', 'v'], '{0}--{1}': ['v', 'v']}
+POOL['v'] = [0, 1, -1, 2, 3, 7, 10, -4, 0.5, -2.5, 1.25, 100, 3.0, 0.1, 0.2, 0.3, 1e15, 12, 0.7, 6]
+POOL['v_'] = [True, None, '3', '2.5', BIG]
+
 FAMILY = {
+    'C04': {'ops': PREC, 'fns': []},
+    'C05': {'ops': {}, 'fns': ['SUM', 'CONCATENATE', 'COUNTA', 'COUNTBLANK', 'CHOOSE', 'AND', 'MAX', 'TEXTJOIN', 'IF', 'LEFT', 'ROUND']},
     'C06': {'ops': ARITH, 'fns': []},
     'C07': {'ops': CMP, 'fns': []},
     'C08': {'ops': ERROPS, 'fns': ['IFERROR', 'IFNA', 'ISERROR', 'ISERR', 'ISNA', 'ERROR.TYPE', 'NA']},
@@ -352,9 +362,14 @@ def draw_args(rng, sig):
 VAR_NAMES = ['XA', 'XB', 'XC', 'XD', 'XE', 'XF', 'XG', 'XH']
 CELLS = ['B2', 'C3', 'D4', 'E5', 'F6', 'G7', 'H8', 'J9']
 RANGES = [('K1', 'M2'), ('N1', 'P2'), ('Q1', 'S2'), ('T1', 'V2'), ('W1', 'Y2'), ('AA1', 'AC2'), ('AD1', 'AF2'), ('AG1', 'AI2')]
-HOSTFN = ['HFA', 'HFB', 'HFC', 'HFD', 'HFE', 'HFF', 'HFG', 'HFH']
-NESTFN = ['NSA', 'NSB', 'NSC', 'NSD', 'NSE', 'NSF', 'NSG', 'NSH']
+HOSTFN = ['HFA', 'hfb', 'Hfc', 'HFD', 'hfe', 'Hff', 'HFG', 'hfh']       # a host registers names in any letter case
+NESTFN = ['NSA', 'nsb', 'Nsc', 'NSD', 'nse', 'Nsf', 'NSG', 'nsh']
+TWIN_NAMES = ['YA', 'YB', 'YC', 'YD', 'YE', 'YF', 'YG', 'YH']
 ARG_ROUTES = ['var', 'lit', 'cell', 'cellabs', 'celllow', 'range', 'hostfn', 'nested', 'if', 'choose', 'paren', 'slot']
+# arrays handed over as tuples (a host that reads rows from a database cursor): only where the statement's functions flatten
+# their arguments, i.e. where a tuple and a list are the same collection of items
+TUPLE_ROUTES = ['rangetup', 'hosttup']
+TUPLE_OK = set(_AGG) | {'CONCAT', 'CONCATENATE', 'TEXTJOIN'}
 SEPS = [',', ';', '\\']
 PADS = ['', ' ', '\n', '\t', '\r\n', '  ']
 
@@ -375,11 +390,13 @@ def arg_text(i, v, route):
         if route == 'celllow':
             c = c.lower()
         return c
-    if route == 'range':
+    if route in ('range', 'rangetup'):
         if not is_list(v):
             return None
         return '%s:%s' % RANGES[i]
-    if route == 'hostfn':
+    if route in ('hostfn', 'hosttup'):
+        if route == 'hosttup' and not is_list(v):
+            return None
         return HOSTFN[i] + '()'
     if route == 'nested':
         return NESTFN[i] + '()'
@@ -416,7 +433,34 @@ def formula_of(c):
         body = c['tpl'].format(*[pad + t + pad for t in texts])
     if lay.get('paren'):
         body = '(' + pad + body + pad + ')'
+    if lay.get('twin') and 'fn' in c:
+        # the same function once more in the same formula, on operands that are EQUAL to these in Python's eyes but of another
+        # type (1 / TRUE / 1.0): each call has its own value
+        if twin_args(c['args']) is None:
+            return None
+        body = 'CHOOSE(2,%s(%s),%s)' % (c['fn'], ','.join(TWIN_NAMES[:len(c['args'])]), body)
     return lay.get('lead', '') + body + lay.get('trail', '')
+
+
+def _twin(v):
+    if isinstance(v, bool):
+        return int(v)
+    if isinstance(v, int):
+        if v in (0, 1):
+            return bool(v)
+        return float(v) if abs(v) < 2 ** 53 else v
+    if isinstance(v, float):
+        if v == int(v) and abs(v) < 2 ** 53 and not (v == 0 and math.copysign(1.0, v) < 0):
+            return int(v)
+        return v
+    if is_list(v):
+        return [_twin(x) for x in v]
+    return v
+
+
+def twin_args(args):
+    t = [_twin(a) for a in args]
+    return t if canon([dec(x) for x in t]) != canon([dec(x) for x in args]) else None
 
 
 def base_formula(c):
@@ -463,19 +507,36 @@ def parser(debug=False):
     return p
 
 
-def _bind(p, c):
-    """fresh copies of the operand values on every route of the case"""
+def _tup(v):
+    return tuple(_tup(x) for x in v) if isinstance(v, list) else v
+
+
+def _decoy_value(v):
+    return [99.5, 98] if is_list(v) else 99.5
+
+
+def _bind(p, c, decoy=False):
+    """fresh copies of the operand values on every route of the case (decoy: other values on the same routes)"""
     _cellval.clear()
     _rangeval.clear()
     _hostval.clear()
+    tw = twin_args(c['args']) if c.get('lay', {}).get('twin') else None
     for i, (v, r) in enumerate(zip(c['args'], c['routes'])):
+        if decoy:
+            v = _decoy_value(v)
         p.set_variable(VAR_NAMES[i], dec(v))
+        if tw is not None:
+            p.set_variable(TWIN_NAMES[i], dec(tw[i]))
         if r in ('cell', 'cellabs', 'celllow'):
             _cellval[CELLS[i]] = dec(v)
         elif r == 'range':
             _rangeval[RANGES[i]] = dec(v)
+        elif r == 'rangetup':
+            _rangeval[RANGES[i]] = _tup(dec(v))
         elif r == 'hostfn':
             _hostval[i] = dec(v)
+        elif r == 'hosttup':
+            _hostval[i] = _tup(dec(v))
 
 
 def _parse(p, text):
@@ -526,13 +587,63 @@ def run(c):
     _bind(p0, c)
     base = canon_rec(_parse(p0, base_formula(c)))
     p = parser(bool(lay.get('debug')))
+    if lay.get('pre'):
+        # an earlier evaluation on the same parser that read the same references with OTHER values and did not complete
+        _bind(p, c, decoy=True)
+        _parse(p, f + PRE_SUFFIX[lay['pre']])
     _bind(p, c)
     rec = _parse(p, f)
     out = {'f': f, 'base': base, 'routed': canon_rec(rec), 'rec': rec}
     if lay.get('again'):
         _bind(p, c)
         out['again'] = canon_rec(_parse(p, f))
+    if lay.get('decoy'):
+        # ANOTHER parser binds the same names to other values and evaluates the same formula; this parser, asked again, answers as before
+        pd = decoy_parser()
+        _bind(pd, c, decoy=True)
+        _parse(pd, f)
+        _bind_listeners_only(c)
+        out['after_decoy'] = canon_rec(_parse(p, f))
+        _bind(p, c)
+        out['rebound'] = canon_rec(_parse(p, f))
     return out
+
+
+PRE_SUFFIX = {'syntax': ')', 'name': '+nosuchname', 'errlit': '+#N/A', 'open': '+('}
+_decoy = [None]
+
+
+def decoy_parser():
+    if _decoy[0] is None:
+        common.load_repo()
+        import hotxlfp
+        p = hotxlfp.Parser()
+        p.on('callCellValue', lambda cell, setter: setter(_cellval.get(_strip(cell.label))))
+        p.on('callRangeValue', lambda a, b, setter: setter(_rangeval.get((_strip(a.label), _strip(b.label)))))
+        for i, name in enumerate(HOSTFN):
+            p.set_function(name, (lambda k: (lambda: _hostval.get(k)))(i))
+        for i, name in enumerate(NESTFN):
+            p.set_function(name, _nested(p, VAR_NAMES[i]))
+        _decoy[0] = p
+    return _decoy[0]
+
+
+def _bind_listeners_only(c):
+    """what the HOST answers (cells, ranges, custom functions) for the case - the parser's own variables are left as they are"""
+    _cellval.clear()
+    _rangeval.clear()
+    _hostval.clear()
+    for i, (v, r) in enumerate(zip(c['args'], c['routes'])):
+        if r in ('cell', 'cellabs', 'celllow'):
+            _cellval[CELLS[i]] = dec(v)
+        elif r == 'range':
+            _rangeval[RANGES[i]] = dec(v)
+        elif r == 'rangetup':
+            _rangeval[RANGES[i]] = _tup(dec(v))
+        elif r == 'hostfn':
+            _hostval[i] = dec(v)
+        elif r == 'hosttup':
+            _hostval[i] = _tup(dec(v))
 
 
 # ----------------------------------------------------------------------------- plugin-side functions for kind 'route'
@@ -556,14 +667,18 @@ def request(c):
         return None
     n = len(c['args'])
     variables = {VAR_NAMES[i]: dec(c['args'][i]) for i in range(n)}
+    if c.get('lay', {}).get('twin'):
+        tw = twin_args(c['args'])
+        for i in range(n):
+            variables[TWIN_NAMES[i]] = dec(tw[i])
     cells, ranges, fns = {}, {}, {}
     for i, (v, r) in enumerate(zip(c['args'], c['routes'])):
         if r in ('cell', 'cellabs', 'celllow'):
             # the model's environment is keyed by the upper-cased label as written
             cells[arg_text(i, v, r).upper()] = dec(v)
-        elif r == 'range':
+        elif r in ('range', 'rangetup'):
             ranges[RANGES[i]] = dec(v)
-        elif r == 'hostfn':
+        elif r in ('hostfn', 'hosttup'):
             fns[HOSTFN[i]] = '(const %s)' % fx.to_wire(dec(v))
         elif r == 'nested':
             fns[NESTFN[i]] = '(const %s)' % fx.to_wire(dec(v))
@@ -601,15 +716,59 @@ def _show(cr):
     return '%s (error entry %r)' % (cr[0], cr[1]) if isinstance(cr, list) and len(cr) == 2 else repr(cr)
 
 
+def _is_err_canon(cr):
+    return cr[1] is not None
+
+
+def sem_trap(c, im):
+    """the trapping functions by their definition, on scalar operands: IFERROR(x,y) = y exactly when x is an error, else x;
+    IFNA likewise for #N/A; ISERROR / ISERR / ISNA classify; stated on the record of the variable route"""
+    fn = c.get('fn')
+    if fn not in ('IFERROR', 'IFNA', 'ISERROR', 'ISERR', 'ISNA') or any(is_list(a) for a in c['args']):
+        return None
+    args = c['args']
+    if fn in ('IFERROR', 'IFNA') and len(args) != 2 or fn in ('ISERROR', 'ISERR', 'ISNA') and len(args) != 1:
+        return None
+    x = args[0]
+    code = x['err'] if is_err(x) else None
+
+    def rec_of(v):
+        # the record a formula whose value is v must give
+        if is_err(v):
+            return [['none'], v['err']]
+        return [canon(dec(v)), None]
+    if fn == 'IFERROR':
+        want = rec_of(args[1]) if code else rec_of(x)
+    elif fn == 'IFNA':
+        want = rec_of(args[1]) if code == '#N/A' else rec_of(x)
+    elif fn == 'ISERROR':
+        want = [['bool', code is not None], None]
+    elif fn == 'ISERR':
+        want = [['bool', code is not None and code != '#N/A'], None]
+    else:
+        want = [['bool', code == '#N/A'], None]
+    if im['base'] != want:
+        return ('%s on %s gives %s; by its definition (y exactly when x is %s, else x / the classification of x) it is %s'
+                % (base_formula(c), json_short(args), _show(im['base']), 'an error' if fn != 'IFNA' else '#N/A', _show(want)))
+    return None
+
+
 def oracle(c, im):
     if im.get('f') is None:
         return None
+    m = sem_trap(c, im)
+    if m:
+        return m
     what = c.get('fn') or c.get('tpl')
     if im['routed'] != im['base']:
         return ('%s on the operand values %s: written %r with the operands bound to variables the record is %s; written %r '
                 '(operand routes %s, layout %s) with the SAME values it is %s - the value is a function of the operand values, '
                 'not of the route by which they arrive' % (what, json_short(c['args']), base_formula(c), _show(im['base']), im['f'],
                                                            c['routes'], c.get('lay', {}), _show(im['routed'])))
+    if 'after_decoy' in im and (im['after_decoy'] != im['routed'] or im['rebound'] != im['routed']):
+        return ('%r on one parser gives %s; after ANOTHER parser has bound the same variable and function names to other values and '
+                'evaluated the same formula, this parser gives %s (and %s once its own variables are bound again) - a parser\'s '
+                'answer depends on its own bindings only' % (im['f'], _show(im['routed']), _show(im['after_decoy']), _show(im['rebound'])))
     if 'again' in im and im['again'] != im['routed']:
         return ('%r evaluated twice on the same parser with the same bindings: first %s, then %s'
                 % (im['f'], _show(im['routed']), _show(im['again'])))
@@ -646,6 +805,12 @@ def _layout(rng, is_fn):
         lay['debug'] = True
     if rng.random() < 0.12:
         lay['again'] = True
+    if rng.random() < 0.1:
+        lay['pre'] = rng.choice(['syntax', 'name', 'errlit', 'open'])
+    if is_fn and rng.random() < 0.1:
+        lay['twin'] = True
+    if rng.random() < 0.07:
+        lay['decoy'] = True
     return lay
 
 
@@ -685,6 +850,15 @@ def route_cases(rng, ctx, fam, scale=None):
             args = draw_lookup(rng, sig) if sig[:2] == ['a', 'S'] else draw_args(rng, sig)
             mode = rng.choice(['one', 'one', 'all', 'mix', 'mix'])
             c = {'kind': 'route', kind: name, 'args': args, 'routes': _routes_for(rng, args, mode)}
+            if kind == 'fn' and len(args) >= 2 and rng.random() < 0.1:
+                # an omitted argument: a blank in one slot, whatever the separator
+                i = rng.randrange(len(args))
+                c['args'] = args = args[:i] + [None] + args[i + 1:]
+                c['routes'][i] = 'slot'
+            if kind == 'fn' and name in TUPLE_OK and rng.random() < 0.15:
+                idx = [i for i, a in enumerate(args) if is_list(a)]
+                if idx:
+                    c['routes'][rng.choice(idx)] = rng.choice(TUPLE_ROUTES)
             lay = _layout(rng, kind == 'fn')
             if lay:
                 c['lay'] = lay
@@ -710,8 +884,17 @@ RULE_TEXT = (' Route layer (harness/routes.py, kind route; a random stream of it
              'empty slot (blank)} - one operand off the variable route (40 %), all on one route (20 %), independently mixed (40 %) - and a '
              'layout: `;` or `\\` between the arguments (22 %), white space / tab / LF / CR LF around every token (20 %), redundant '
              'parentheses (8 %), leading or trailing white space (6 % each), a parser constructed with debug=True (10 %), evaluated '
-             'twice on the same parser (12 %). Oracle: the record equals, type for type and bit for bit, the record of the same call '
-             'with all operands in variables, commas, one line, no debug; and the second evaluation equals the first. Model: '
+             'twice on the same parser (12 %); after an evaluation on the same parser that read the same references with OTHER values and did '
+             'not complete (the formula followed by `)`, `+nosuchname`, `+#N/A` or `+(`; 10 %); the same function once more in the same '
+             'formula on operands equal in Python\'s eyes but of another type (CHOOSE(2,F(twins),F(operands)) with 1 / TRUE / 1.0, 0 / FALSE / '
+             '0.0, whole float / int; 10 % of the calls); with ANOTHER parser binding the same variable and function names to other values '
+             'and evaluating the same formula in between (7 %); one argument omitted as an empty slot at a random position, whatever the '
+             'separator (10 % of the calls with two or more arguments); for the flattening functions (aggregates, CONCAT, CONCATENATE, TEXTJOIN) '
+             'an array operand handed over as a tuple (of tuples) by the range listener or a custom function (15 % of their cases with an array); '
+             'custom functions are registered under upper-, lower- and mixed-case names. Oracle: the record equals, type for type and bit for bit, the record of the same call '
+             'with all operands in variables, commas, one line, no debug; the second evaluation equals the first; the answer after the other '
+             'parser\'s bindings equals the one before; for IFERROR / IFNA / ISERROR / ISERR / ISNA on scalar operands the record of the variable '
+             'route is the one their definition gives. Model: '
              '`eval` of the ROUTED formula with the cells, ranges and custom functions in the environment, compared as elsewhere '
              '(4 ulp / 1e-9). Non-trivial: no error entry and at least one operand off the variable route or a layout.')
 TRUSTED_TEXT = ('route layer: the variable route (the call with every operand bound by set_variable, commas, one line) is the '
